@@ -42,9 +42,9 @@ CLAIMED = {
         ref="DESIGN.md section 4 C18",
         note="The user error coercer returns normally; bytes are opaque non-str values; 'locations lie inside the query text' is not decided (absent C parser)."),
     'C01': dict(
-        text="collect_fields and collect_subfields are proved equal to the CollectFields algorithm of GraphQL 6.3.2 (accumulator form: @skip/@include outcome first, response key = alias or name, first-appearance order, inline fragments / spreads under their type condition, each named fragment once per grouped set) by a loop invariant and the recursive callee contract; should_include_node and does_fragment_condition_match against their clauses; execute_operation (executor choice, root collection), execute_fields_serially (one await per key in order, ordered result map), execute_fields (one resolve_field coroutine per collected key, gathered with return_exceptions, result map pointwise equal to the awaited outcomes in key order, every failure re-raised as one MultipleException), complete_value_catching_error and get_output_coercer (output chain = CompleteValue for the declared type).",
+        text="collect_fields and collect_subfields are proved equal to the CollectFields algorithm of GraphQL 6.3.2 (accumulator form: @skip/@include outcome first, response key = alias or name, first-appearance order, inline fragments / spreads under their type condition, each named fragment once per grouped set) by a loop invariant and the recursive callee contract; should_include_node and does_fragment_condition_match against their clauses; execute_operation (executor choice, root collection), execute_fields_serially (one await per key in order, ordered result map), execute_fields (one resolve_field coroutine per collected key, gathered with return_exceptions, result map pointwise equal to the awaited outcomes in key order, every failure re-raised as one MultipleException), complete_value_catching_error and get_output_coercer (output chain = CompleteValue for the declared type); resolve_field (one ResolveInfo, the resolver stage once with the parent value, completion once against the DECLARED type with the baked coercer), get_type_resolver (field-level over type-level over schema default), ensure_valid_runtime_type (only a possible OBJECT type is accepted), abstract_coercer (type resolver asked once, runtime type's hooks once, completed as that object type), resolver_executor.",
         ref="DESIGN.md section 4 C01",
-        note="Not under contract in this revision: resolve_field / resolve_field_value_or_error (resolver called once with coerced arguments), abstract_coercer / ensure_valid_runtime_type (type-resolver precedence), default_field_resolver. Termination of fragment recursion is not verified. User resolvers and hooks are opaque."),
+        note="Not under contract in this revision: default_field_resolver / default_type_resolver (dynamic getattr), object_coercer / complete_object_value (named by the abstract ObjConf), build_resolve_info. Termination of fragment recursion is not verified. User resolvers and hooks are opaque."),
     'C09': dict(
         text="execute_operation selects execute_fields_serially exactly when the operation type is 'mutation' and runs it on the collected root fields; execute_fields_serially awaits resolve_field once per collected key in collection order (ghost trace == keys of the collected map) and builds the response map in that order; a raising (non-null) root field stops the loop and execute_operation answers null with the error recorded; structural obligations: no create_task/ensure_future/... anywhere in the request cone and every gather over raising awaitables uses return_exceptions=True, so a root field's whole sub-selection has completed when its await returns.",
         ref="DESIGN.md section 4 C09",
@@ -54,9 +54,9 @@ CLAIMED = {
         ref="DESIGN.md section 4 C14",
         note="Async-generator protocol assumed (events delivered in order, generator ends with the source); the per-event response is whatever execute returns (C01/C02/C18 contracts); Subscription.bake wiring and directive generators are not under contract."),
     'C05': dict(
-        text="Literal path of argument coercion: the null/variable wrapper (absent -> invalid, `null` -> null, a variable contributes its coerced runtime value, missing variable or null at a non-null position -> invalid, other literals go to the wrapped coercer with the same variables), the literal non-null layer (sets the non-null flag), literal_directives_coercer (forwards variables, path and the non-null flag; hooks run exactly when due and their value is used), the per-field rule of input-object literals (absent entry or variable without value -> default / invalid / skipped), is_missing_variable; and rule 5.8.5 (AreTypesCompatible, IsVariableUsageAllowed) which keeps ill-typed variables out of argument positions.",
+        text="argument_coercer is one iteration of CoerceArgumentValues (GraphQL 6.4.1): literal coerced by the declared type's literal coercer, variable -> its coerced runtime value, omitted -> default or absent, null kept distinct from absent, null / missing at a non-null argument and ill-typed literals fail the field, hook chain exactly once on a valid value; coerce_arguments pairs every argument definition's name with its own outcome (pointwise for an arbitrary index), gathers every failure; get_literal_coercer mirrors the declared type wrapper by wrapper; literal scalar / enum / list item / list / input-object bodies against the per-layer literal oracle (an object literal with an undeclared entry is invalid). Literal path of argument coercion: the null/variable wrapper (absent -> invalid, `null` -> null, a variable contributes its coerced runtime value, missing variable or null at a non-null position -> invalid, other literals go to the wrapped coercer with the same variables), the literal non-null layer (sets the non-null flag), literal_directives_coercer (forwards variables, path and the non-null flag; hooks run exactly when due and their value is used), the per-field rule of input-object literals (absent entry or variable without value -> default / invalid / skipped), is_missing_variable; and rule 5.8.5 (AreTypesCompatible, IsVariableUsageAllowed) which keeps ill-typed variables out of argument positions.",
         ref="DESIGN.md section 4 C05",
-        note="Not under contract in this revision: coerce_arguments / argument_coercer, the literal scalar / enum / list / input-object coercer bodies and get_literal_coercer, hence no literal=variable lemma over the whole type structure (only the C10 leaf lemmas). Variables nested in list/object literals are not covered by rule 5.8.5 in the code (deviation D6 of DESIGN section 5, not decided by a failing obligation here)."),
+        note="No literal=variable lemma over the whole type structure (the per-layer contracts use the same oracle shape as C04; leaf lemmas: C10); the arguments-coercer strategy is an assumed positional gather; custom scalar parse_literal is opaque. Finding D12 (undeclared entries accepted in object literals) was found by this check and repaired in /repo (7ecd3cd). Variables nested in list/object literals are not covered by rule 5.8.5 in the code (deviation D6 of DESIGN section 5, not decided by a failing obligation here)."),
     'C06': dict(
         text="Rule layer, no_false_reject half, for the functions that decide rule 5.8.5 (_validate_type_compatibility == AreTypesCompatible, _validate_usage == IsVariableUsageAllowed, _find_variable_by_name == first definition of that name in THIS operation) and rule 5.5.2.3 (_validate_node: impossible only when the condition is an existing composite type whose possible types do not overlap the parent's; _validate_is_possible: unit contract with the helper inlined, reports iff some node is impossible; _validate_spreads: reports only when some site is impossible); valid requests reach execute (_perform_query).",
         ref="DESIGN.md section 4 C06/C07, Appendix A",
@@ -70,13 +70,13 @@ CLAIMED = {
         ref="DESIGN.md section 4 C08",
         note="no schedule is enumerated; termination is not decided; 'none is started twice under every schedule' follows only from the once-per-call-site contracts (C01/C09/C13)."),
     'C12': dict(
-        text="_validate_schema_named_types reports at least one error exactly when some field of a type that has fields (objects AND interfaces) names an undefined type (nested loop invariants); _validate_field_type_is_same_as_interface_type equals the interface-conformance predicate (same type, non-null version of a compatible type, or possible type of a plain named interface; list / non-null interface types admit nothing else) by the recursive callee contract; reduce_type strips every wrapper.",
+        text="_validate_schema_named_types reports at least one error exactly when some field of a type that has fields (objects AND interfaces) names an undefined type (nested loop invariants); _validate_field_type_is_same_as_interface_type equals the interface-conformance predicate (same type, non-null version of a compatible type, or possible type of a plain named interface; list / non-null interface types admit nothing else) by the recursive callee contract; reduce_type strips every wrapper; _validate (aggregator) runs every listed rule validator once and raises GraphQLSchemaError exactly when one of them reported an error; _validate_schema_root_types_exist, _validate_all_scalars_have_implementations and _validate_union_is_acceptable report exactly when their rule is broken.",
         ref="DESIGN.md section 4 C12, Appendix B",
-        note="Only these rules are under contract; the other _validate_* rules, _validate (aggregator), redefinition guards, extension validators and Engine.cook are not. lark raising on syntax errors is external."),
+        note="Six rule functions and the aggregator are under contract; the other _validate_* rules (interfaces followed, non-empty objects, enum uniqueness, argument / input types, directive implementations), redefinition guards, extension validators and Engine.cook are not. lark raising on syntax errors is external."),
     'C13': dict(
-        text="resolve_field_value_or_error: the query-side on_field_execution directives of EVERY merged field node are computed (loop invariant) and wrapped around the baked resolver, which is called exactly once with the parent value, the coerced arguments of the first node (from the coerced variable map), the caller's context and info; input / literal / output directive wrappers call their hook chain exactly when due, with the coerced value, and use what it returns; top-level variables skip type-level hooks on the literal path (already applied at variable coercion) but input-field hooks still run.",
+        text="wraps_with_directives returns exactly the reversed fold of the definition list (first declared directive implementing the hook outermost, each link bound to ITS callable, ITS arguments coercer and the chain of the later ones, resolver / default adapted once); directive_executor coerces the instance's arguments once with the request context and awaits the hook exactly once with them, the next stage and the untouched rest, never running the next stage itself; resolver_executor awaits the raw resolver once without context_coercer; compute_directive_nodes yields one entry per directive instance in declaration order bound to its own node and definition; bake() of scalar, enum, enum value, input field, input object, argument, field and interface types puts the stated chain into the stated coercer (variable and literal path share one on_post_input_coercion chain; the field's on_field_execution chain wraps raw / custom default / builtin default resolver inside resolve_field); argument_coercer runs the argument chain once on a valid value; resolve_field_value_or_error: the query-side on_field_execution directives of EVERY merged field node are computed (loop invariant) and wrapped around the baked resolver, which is called exactly once with the parent value, the coerced arguments of the first node (from the coerced variable map), the caller's context and info; input / literal / output directive wrappers call their hook chain exactly when due, with the coerced value, and use what it returns; top-level variables skip type-level hooks on the literal path (already applied at variable coercion) but input-field hooks still run.",
         ref="DESIGN.md section 4 C13",
-        note="wraps_with_directives (fold order), directive_executor and the bake() wiring of the type classes are not under contract in this revision; user hooks are opaque."),
+        note="Not under contract: bake() of object and union types (loops over interfaces / members), directive_generator (subscriptions), schema-level and on_post_bake hooks at build time, introspection_directives_executor. get_callables (dir/getattr), get_graphql_type and the get_*_coercer results are named by uninterpreted functions inside the bake contracts. User hooks are opaque."),
 }
 
 REASON_PENDING = "contracts for this property are not in place in this revision (DESIGN.md section 8 delivery order); no other technique is substituted"
